@@ -4,6 +4,7 @@ import (
 	"bufio"
 	"fmt"
 	"io"
+	"os"
 	"os/exec"
 	"strings"
 	"time"
@@ -26,7 +27,10 @@ type Solver struct {
 	in       io.WriteCloser
 	out      *bufio.Reader
 	declared map[string]bool
+	declLevel map[string]int
 	decls    []string // declaration text in order (for standalone scripts)
+
+	stack    []*Term // constraints currently asserted, one push level each
 
 	Queries  int
 	NSat     int
@@ -52,7 +56,7 @@ func NewSolver(bin string) *Solver {
 	if err := cmd.Start(); err != nil {
 		panic(engineErr{"cannot start solver " + bin + ": " + err.Error()})
 	}
-	s := &Solver{bin: bin, cmd: cmd, in: in, out: bufio.NewReaderSize(out, 1<<16), declared: map[string]bool{}}
+	s := &Solver{bin: bin, cmd: cmd, in: in, out: bufio.NewReaderSize(out, 1<<16), declared: map[string]bool{}, declLevel: map[string]int{}}
 	if bin == "cvc5" {
 		s.send("(set-logic ALL)\n")
 	}
@@ -75,6 +79,34 @@ func sortOf(w int) string {
 		return "Bool"
 	}
 	return fmt.Sprintf("(_ BitVec %d)", w)
+}
+
+// declareTo declares the symbols of t. Declarations made inside a push level
+// disappear with it, so they are tracked per level: a symbol is re-declared
+// whenever the level it was declared in has been popped.
+func (s *Solver) declareTo(t *Term, sb *strings.Builder) {
+	switch t.Op {
+	case "var":
+		if lvl, ok := s.declLevel[t.Name]; !ok || lvl > len(s.stack) {
+			s.declLevel[t.Name] = len(s.stack)
+			s.declared[t.Name] = true
+			fmt.Fprintf(sb, "(declare-const %s %s)\n", t.Name, sortOf(t.W))
+		}
+		return
+	case "uf":
+		if lvl, ok := s.declLevel[t.Name]; !ok || lvl > len(s.stack) {
+			s.declLevel[t.Name] = len(s.stack)
+			s.declared[t.Name] = true
+			var as []string
+			for _, a := range t.Args {
+				as = append(as, sortOf(a.W))
+			}
+			fmt.Fprintf(sb, "(declare-fun %s (%s) %s)\n", t.Name, strings.Join(as, " "), sortOf(t.W))
+		}
+	}
+	for _, a := range t.Args {
+		s.declareTo(a, sb)
+	}
 }
 
 func (s *Solver) declare(t *Term) {
@@ -142,23 +174,50 @@ func Script(conj []*Term) string {
 	return decl.String() + body.String() + "(check-sat)\n"
 }
 
-// Sat checks satisfiability of the conjunction; on sat the values of modelVars are returned.
-func (s *Solver) Sat(conj []*Term, modelVars []*Term) (satResult, map[string]uint64) {
+// Sat checks satisfiability of pc ∧ extra; on sat the values of modelVars are
+// returned. The solver's assertion stack mirrors pc (one push level per
+// conjunct): only the part of pc that differs from the previous query is
+// popped/pushed, extra is asserted in a temporary level.
+func (s *Solver) Sat(pc []*Term, modelVars []*Term, extra ...*Term) (satResult, map[string]uint64) {
 	t0 := time.Now()
 	defer func() { s.Time += time.Since(t0); s.Queries++ }()
-	for _, c := range conj {
-		s.declare(c)
-	}
 	var sb strings.Builder
-	sb.WriteString("(push 1)\n")
-	for _, c := range conj {
-		sb.WriteString("(assert " + c.str + ")\n")
+	k := 0
+	for k < len(s.stack) && k < len(pc) && s.stack[k] == pc[k] {
+		k++
+	}
+	if k < len(s.stack) {
+		fmt.Fprintf(&sb, "(pop %d)\n", len(s.stack)-k)
+		s.stack = s.stack[:k]
+		// declarations made above level k went away with the popped levels
+		for name, lvl := range s.declLevel {
+			if lvl > k {
+				delete(s.declLevel, name)
+			}
+		}
+	}
+	for _, c := range pc[k:] {
+		s.declareTo(c, &sb)
+		sb.WriteString("(push 1)\n(assert " + c.str + ")\n")
+		s.stack = append(s.stack, c)
+	}
+	for _, c := range extra {
+		s.declareTo(c, &sb)
+	}
+	if len(extra) > 0 {
+		sb.WriteString("(push 1)\n")
+		for _, c := range extra {
+			sb.WriteString("(assert " + c.str + ")\n")
+		}
 	}
 	sb.WriteString("(check-sat)\n")
 	s.send(sb.String())
 	line := s.readLine()
 	for strings.HasPrefix(line, "(error") {
 		s.Errors++
+		if s.Errors <= 3 {
+			fmt.Fprintln(os.Stderr, "solver error line:", line)
+		}
 		// an error line means the answer that follows cannot be trusted
 		line = s.readLine()
 		if line == "sat" || line == "unsat" || line == "unknown" {
@@ -209,7 +268,9 @@ func (s *Solver) Sat(conj []*Term, modelVars []*Term) (satResult, map[string]uin
 	default:
 		s.NUnknown++
 	}
-	s.send("(pop 1)\n")
+	if len(extra) > 0 {
+		s.send("(pop 1)\n")
+	}
 	return res, model
 }
 
